@@ -154,7 +154,8 @@ func init() {
 				c.R.Count("self_issued_skipped", 1)
 				return
 			}
-			compared := c09Judge(c, o, desc, lint.GlobalRegistry(), c.Rng(i, 4))
+			isMutant := i >= nSeeds && i < nSeeds+c.Pick(30000, 600000)
+			compared := c09JudgeX(c, o, desc, lint.GlobalRegistry(), c.Rng(i, 4), !isMutant || i%4 == 0)
 			cur := o.Cert.Signature
 			if compared > 0 {
 				c.CountDistinct(o.DER)
@@ -365,6 +366,9 @@ func c09OwnKey(k int) (*mon.Obj, string) {
 
 // c09Judge lints o and its same-length signature variants with reg and requires identical status and details for
 // every lint; returns the number of variants compared.
+// c09PrevZero: the all-zero-signature variant judged last in this worker (see c09JudgeX)
+var c09PrevZero *mon.Obj
+
 // derSeqOfLen builds a DER SEQUENCE whose complete encoding is exactly n octets (nil when n is too small).
 func derSeqOfLen(n int) []byte {
 	hdr := func(l int) []byte { // definite length octets, minimal
@@ -409,6 +413,11 @@ func derSeqOfLen(n int) []byte {
 }
 
 func c09Judge(c *mon.Ctx, o *mon.Obj, desc string, g lint.Registry, rng *rand.Rand) int {
+	return c09JudgeX(c, o, desc, g, rng, true)
+}
+
+// c09JudgeX: with full == false only the basic variants are compared (random mutants, three in four)
+func c09JudgeX(c *mon.Ctx, o *mon.Obj, desc string, g lint.Registry, rng *rand.Rand, full bool) int {
 	dc, err := der.ParseCert(o.DER)
 	if err != nil {
 		return 0
@@ -470,10 +479,23 @@ func c09Judge(c *mon.Ctx, o *mon.Obj, desc string, g lint.Registry, rng *rand.Ra
 	// for one of these encodings must not find it in the signature
 	func() {
 		defer func() { _ = recover() }() // a mutant whose outline the tree reader does not know: no such variants
+		if !full {
+			return
+		}
 		fields := map[string][]byte{"inner-alg": dc.InnerAlg().Encode(), "outer-alg": dc.OuterAlg().Encode(), "serial": dc.Serial().Encode(),
 			"validity": dc.Validity().Encode(), "issuer": dc.Issuer().Encode(), "subject": dc.Subject().Encode()}
 		if sp := dc.SPKI(); len(sp.Children) > 0 {
 			fields["key-alg"] = sp.Children[0].Encode()
+		}
+		// the algorithm OIDs by themselves, followed by what a lint might look for behind them: NULL parameters, an empty
+		// SEQUENCE, nothing
+		for an, alg := range map[string]*der.Node{"inner-alg-oid": dc.InnerAlg(), "outer-alg-oid": dc.OuterAlg()} {
+			if len(alg.Children) > 0 {
+				oid := alg.Children[0].Encode()
+				fields[an+"+null"] = append(append([]byte{}, oid...), 0x05, 0x00)
+				fields[an+"+empty-seq"] = append(append([]byte{}, oid...), 0x30, 0x00)
+				fields[an] = oid
+			}
 		}
 		for fname, enc := range fields {
 			if len(enc) == 0 || len(enc) > len(cur) {
@@ -518,6 +540,18 @@ func c09Judge(c *mon.Ctx, o *mon.Obj, desc string, g lint.Registry, rng *rand.Ra
 		if !bytes.Equal(o2.Cert.RawTBSCertificate, o.Cert.RawTBSCertificate) {
 			c.R.Count("variant_not_comparable", 1)
 			continue
+		}
+		if vname == "zero" {
+			// directly in front of it, ANOTHER certificate carrying the very same signature value (the previous case's
+			// all-zero variant of equal length, usually of another scope): a dummy signature shared by a batch of
+			// to-be-issued certificates must not carry anything over from one to the next
+			if c09PrevZero != nil && len(c09PrevZero.Cert.Signature) == len(o2.Cert.Signature) {
+				if pz := c09PrevZero.Reparse(); pz != nil {
+					_, _, _ = pz.Lint(g)
+					c.R.Count("shared_dummy_signature_neighbours", 1)
+				}
+			}
+			c09PrevZero = o2
 		}
 		rs2, pv2, _ := o2.Lint(g)
 		c.R.Count("evaluations", 1)
